@@ -583,6 +583,13 @@ func (db *MultiBucketBackend) deleteObjectLocked(bucketName, objectName string) 
 
 	fullPath := path.Join(bucketName, objectName)
 
+	// A directory is not an object (it only holds the objects below it), so no
+	// such key exists. Removing it would fail on a real filesystem and, on
+	// afero's MemMapFs, orphan everything below it.
+	if stat, err := db.bucketFs.Stat(filepath.FromSlash(fullPath)); err == nil && stat.IsDir() {
+		return nil
+	}
+
 	// S3 does not report an error when attemping to delete a key that does not exist, so
 	// we need to skip IsNotExist errors.
 	if err := db.bucketFs.Remove(filepath.FromSlash(fullPath)); err != nil && !noSuchFile(err) {
